@@ -21,7 +21,7 @@ ASSUMPTIONS = ["spec/iec62386_tables.py is a faithful transcription of the stand
                "class names are the standard's command names in CamelCase as the library documents"]
 EXHAUSTIVE = {"quick": False, "thorough": True}
 REQUIRED_ANCHORS = {"all": ["encode_checked", "decode_checked", "flags_checked", "event_encode_checked",
-                            "classes_claimed"]}
+                            "classes_claimed", "stable_checked"]}
 SHARD_TIMEOUT = {"quick": 600, "thorough": 3000}
 
 
@@ -73,6 +73,10 @@ def arg_sets(row, quick, r):
                     yield {"addr": d, "param": p}, (lambda cls, A, d=d, p=p: cls(mk_addr(A, d), p))
                 else:
                     yield {"addr": d, "power": p}, (lambda cls, A, d=d, p=p: cls(mk_addr(A, d), p))
+            if k == "dapc":
+                # the documented named levels: "OFF" is level 0, "MASK" is 255 (stop fading)
+                yield {"addr": d, "power": 0}, (lambda cls, A, d=d: cls(mk_addr(A, d), "OFF"))
+                yield {"addr": d, "power": 255}, (lambda cls, A, d=d: cls(mk_addr(A, d), "MASK"))
     elif k in ("spc0", "dsp0"):
         yield {}, (lambda cls, A: cls())
     elif k in ("spc1", "dsp1"):
@@ -129,6 +133,7 @@ def run_rows(desc, tier, seed, res):
                           {"row": row.lib})
             continue
         n_args = 0
+        alive = []           # every command built for this row stays alive; its frame must not change afterwards
         for ref_args, ctor in arg_sets(row, quick, r):
             n_args += 1
             res.evaluations += 1
@@ -143,6 +148,7 @@ def run_rows(desc, tier, seed, res):
                               {"row": row.lib, "args": repr(ref_args)})
                 continue
             res.hit("encode_checked")
+            alive.append((obj, want, ref_args))
             if got != want or glen != row.width:
                 res.violation(f"C03/frame-bits/{row.lib}",
                               f"{row.name} {ref_args}: library emits {got:#0{row.width // 4 + 2}x} ({glen} bits), "
@@ -170,6 +176,16 @@ def run_rows(desc, tier, seed, res):
                 res.violation(f"C03/decoded-arguments/{row.lib}",
                               f"the standard's frame {want:#x} for {row.name} {exp} decodes with arguments {ba}",
                               {"row": row.lib, "frame": want})
+        changed = 0
+        for obj, want, ref_args in alive:
+            res.hit("stable_checked")
+            now = obj.frame.as_integer
+            if now != want and changed < 3:
+                changed += 1
+                res.violation(f"C03/frame-changed-later/{row.lib}",
+                              f"{row.name} {ref_args}: the command's frame reads {now:#x} after other {row.name} commands "
+                              f"were built; the standard's table gives {want:#x}",
+                              {"row": row.lib, "args": repr(ref_args), "got": now, "want": want})
         res.distinct += n_args
         res.add("rows_checked")
     if rows:
